@@ -525,6 +525,7 @@ func main() {
 
 	// ---------------------------------------------------------------- scalar-field loop code (translated)
 	translateLoops(*repo, writeImp)
+	translateElements(*repo, writeImp)
 	fmt.Println("extract: ok")
 }
 
